@@ -145,6 +145,8 @@ def gen_project(rng, nmax=7, with_deps=True, with_regen=False, with_pools=False)
         ex = [rng.choice(sources + prev) for _ in range(rng.randint(1, 2))]
         im = [rng.choice(headers + prev)] if rng.random() < 0.3 else []
         oo = [rng.choice(prev)] if prev and rng.random() < 0.25 else []
+        if rng.random() < 0.2:
+            oo.append(rng.choice(headers))         # a plain file as order-only input (it may also be reported as a dependency, and vanish)
         opts = []
         depsrc = None
         if with_deps and rng.random() < 0.5:
@@ -157,6 +159,19 @@ def gen_project(rng, nmax=7, with_deps=True, with_regen=False, with_pools=False)
         builds.append({"outs": outs, "ex": ex, "im": im, "oo": oo, "opts": opts, "tag": "t%d" % i, "msvc": rng.random() < 0.25,
                        "pool": rng.choice(pools)[0] if pools and rng.random() < 0.7 else None})
         outs_all.append(outs)
+    # some outputs live in a directory and have dot-less names; consumers may spell them with a doubled separator
+    if rng.random() < 0.5:
+        ren = {}
+        for b in builds:
+            if rng.random() < 0.35:
+                for o in b["outs"]:
+                    ren[o] = "gen/" + o.replace(".", "_")
+        if ren:
+            for b in builds:
+                b["outs"] = [ren.get(o, o) for o in b["outs"]]
+                for k in ("ex", "im", "oo"):
+                    b[k] = [ren.get(x, x) for x in b[k]]
+            outs_all = [[ren.get(o, o) for o in os_] for os_ in outs_all]
     regen_oo = with_regen is True and rng.random() < 0.4
     if regen_oo:
         # the generator's generated input is shared with ordinary steps (which may have further generated inputs)
@@ -185,12 +200,15 @@ def manifest_text(info):
             regen_block += ["build cfgstamp: r cfg.src", "  tag = cfg"]
         if not info.get("regen_last"):
             lines += regen_block
+    def sp(x):
+        # deterministic per name, so that regenerated manifests keep their spelling: every other gen/ input is written gen//
+        return x.replace("gen/", "gen//") if x.startswith("gen/") and sum(map(ord, x)) % 2 == 0 else x
     for b in info["builds"]:
-        l = "build %s: %s %s" % (" ".join(b["outs"]), "rm" if b.get("msvc") else "r", " ".join(b["ex"]))
+        l = "build %s: %s %s" % (" ".join(b["outs"]), "rm" if b.get("msvc") else "r", " ".join(sp(x) for x in b["ex"]))
         if b["im"]:
-            l += " | " + " ".join(b["im"])
+            l += " | " + " ".join(sp(x) for x in b["im"])
         if b["oo"]:
-            l += " || " + " ".join(b["oo"])
+            l += " || " + " ".join(sp(x) for x in b["oo"])
         lines.append(l)
         lines.append("  tag = %s" % b["tag"])
         if b.get("pool"):
@@ -271,8 +289,12 @@ def gen_history(rng, nmax=6, with_regen=False, ninv=None, with_pools=False):
                 elif c < 0.45:
                     h = rng.choice(info["headers"])
                     put(h, "// h v%d\n" % rng.randint(1, 999))
-                elif c < 0.55:
+                elif c < 0.52:
                     steps.append("touch %s" % hx(rng.choice(info["sources"] + info["headers"])))
+                elif c < 0.55:
+                    gone = rng.choice(info["headers"])                           # a (possibly reported) header disappears
+                    steps.append("del %s" % hx(gone))
+                    files.pop(gone, None)
                 elif c < 0.75:
                     steps.append("del %s" % hx(rng.choice(outs_flat)))
                 elif c < 0.85:
